@@ -35,7 +35,7 @@ NOT_DECIDED = (
     "end-to-end equality of delivered and sent messages for all lengths/configurations/segmentations (zlib, IOStream and the event loop "
     "are trusted); window-bits negotiation values; behaviour of application callbacks"
 )
-LEVEL_NOTE = "necessary conditions only; zlib and struct semantics are taken from their documentation"
+LEVEL_NOTE = "Decides only the structural clauses listed (necessary conditions; zlib/struct semantics taken from their documentation); NOT decided: " + NOT_DECIDED
 
 W = "tornado/websocket.py"
 P13 = "WebSocketProtocol13"
